@@ -35,6 +35,9 @@
 //	     durations that can be ahead of the caller (all-scripts-fail-but-no-dial-error-in-time)
 //	(3c) once every eligible address has a failed dial of the caller's live generation the answer is
 //	     due (all-addresses-failed-but-caller-kept-waiting)
+//	(3d) a back-off refusal is true: not after the documented back-off length has passed since the last
+//	     failed dial (backoff-refusal-after-backoff-ended), not for a WithForceDirectDial caller unless a
+//	     request without the flag had just scheduled the address (backoff-refusal-for-force-direct)
 //	(4)  at most one hand-over of an address to a transport per generation
 //	     (address-dialed-twice-in-generation/<kind>); only known addresses of the asked peer, on the
 //	     right transport (dialed-unknown-address, dialed-unknown-peer, wrong-transport)
@@ -56,8 +59,11 @@
 // eligibility); all-fail (every script fails: (3b)); slow worker (1/8: a name whose first lookup
 // takes 1 s and ignores cancellation, two hanging addresses, cap 1-2, first caller gives up early,
 // another dials within the second — a worker outliving its callers next to its successor);
+// back-off rejoin (1/8: round 1 leaves address B in back-off but not the hanging address A; round 2:
+// a first caller is refused B and waits on A, a second one joins after B's back-off ended or with
+// force-direct — B must reach a transport);
 // stalls (1/6 of insecure runs: the scheduler lets virtual time pass while tasks are runnable;
-// every oracle that reasons with virtual time — (1) bound, (2b), (3b), (3c), (4), (6) timing, token
+// every oracle that reasons with virtual time — (1) bound, (2b), (3b), (3c), (3d), (4), (6) timing, token
 // probes — is switched off there); insecure vs noise; link latency.
 //
 // Weaker readings taken (guide rule 6):
@@ -110,6 +116,9 @@
 //	m12 dial_worker: a successful dial answers only one pending request
 //	                                   -> connection-obtained-but-caller-kept-waiting
 //	m13 limiter.clearAllPeerDials drops live jobs too (= the defect repaired by cb59e91) -> (3b)
+//	m14 dial_worker.dispatchError: the back-off clean-up deletes trackedDials by addr.String() (no-op),
+//	    the refused address stays "failed" for the worker's lifetime (lead's seeded change, scratch worktree)
+//	                                   -> backoff-refusal-after-backoff-ended, backoff-refusal-for-force-direct
 package c05
 
 import (
